@@ -20,7 +20,9 @@ CFG = {
             "the operation was accepted or is a reset/price change (distinct transitions counted). Concurrent tier: goroutines submit and "
             "publish head events through the real feed; snapshots under the pool lock are judged by the state clauses; reader stress: six "
             "goroutines read Pending()/Content()/Stats() against writers and every view handed out is judged (consecutive nonces starting "
-            "at a chain nonce some head had; re-read and compared with the pool's tables after quiescence).",
+            "at a chain nonce some head had; re-read and compared with the pool's tables after quiescence). Price lattice (every run): "
+            "replacements at gas prices 1, 2^32±1, 2^53, 2^64/200, 2^64/110±1, 2^63, 2^64±1, 2^128 × replacement prices P, P+1, threshold−1, "
+            "threshold, threshold+1 × bump 0/10/100 × pending/queued × local/remote, judged on big integers and by the Lean model on Nat.",
     "tie": {"txList.Add/Filter/Forward/Cap/Ready/Remove": "corr (trace validation of every pool transition against Model.TxPool)",
             "TxPool.add/validateTx/enqueueTx/promoteTx/removeTx/promoteExecutables/demoteUnexecutables/reset/SetGasPrice":
                 "corr (trace validation; eviction policy = inferred oracle, costcap/gascap compared as sound upper bounds)",
